@@ -153,7 +153,15 @@ def run_cli_case(case):
             os.remove(os.path.join(rundir, "settings.yaml"))
             planted |= {"input01", "elast.dat"}
             settings = os.path.join(d, "settings.yaml")
-        r = subprocess.run([sys.executable, "-B", "-W", "ignore", "-m", "cij.cli.cij", "run", settings], cwd=rundir, env=env,
+        pyflags = []
+        interp = case.get("interp", "default")
+        if interp == "-O":
+            pyflags = ["-O"]                       # assert statements and __debug__ blocks stripped
+        elif interp == "LC_ALL=C":
+            env.update(LC_ALL="C", LANG="C")       # another process locale
+        elif interp == "narrow-terminal":
+            env.update(COLUMNS="20", LINES="5")    # a terminal size that table formatters may consult
+        r = subprocess.run([sys.executable, *pyflags, "-B", "-W", "ignore", "-m", "cij.cli.cij", "run", settings], cwd=rundir, env=env,
                            capture_output=True, text=True)
         if r.returncode != 0:
             tail = (r.stderr or r.stdout).strip().splitlines()[-1:] or [""]
@@ -163,15 +171,15 @@ def run_cli_case(case):
         files = dir_digest(rundir, exclude=INPUTS | planted)
     if files != gold["files"]:
         diff = sorted(k for k in set(files) | set(gold["files"]) if files.get(k) != gold["files"].get(k))
-        viol.append(V(f"c14:cli:output-differs:{extras}" + ("" if seed == "0" else ":hashseed"),
-                      f"`cij run` with PYTHONHASHSEED={seed}, cwd extras {extras!r}: files differing from the golden run: {diff[:6]}"))
+        viol.append(V(f"c14:cli:output-differs:{extras}" + ("" if seed == "0" else ":hashseed") + ("" if case.get("interp", "default") == "default" else ":" + case["interp"]),
+                      f"`cij run` with PYTHONHASHSEED={seed}, cwd extras {extras!r}, interpreter/environment {case.get('interp', 'default')}: files differing from the golden run: {diff[:6]}"))
     return {"viol": viol, "nontrivial": seed != "0" or extras != "none", "outcome": f"identical/{len(files)}files" if not viol else viol[0]["sig"]}
 
 
 # ------------------------------------------------------------------ history space, in-process
 
 def run_history(case):
-    """ops: ["new",x] ["read",x,p] ["write",x] ["fill"] ["cfg"]; goldens come from fresh interpreters"""
+    """ops: ["new",x] ["read",x,p] ["write",x] ["fill"] ["cfg"] ["static"] ["fillcli"] ["refused"]; goldens come from fresh interpreters"""
     from cij.core.calculator import Calculator
     gold = case["golden"]
     viol = []
@@ -182,6 +190,10 @@ def run_history(case):
         for name in DATA:
             os.makedirs(os.path.join(d, name))
             write_inputs(os.path.join(d, name), name)
+        # a settings file whose crystal system the table does not have: the symmetry check refuses the construction
+        os.makedirs(os.path.join(d, "refused"))
+        synth.write(os.path.join(d, "refused"), dict(DATA["A"], system="cubic"), ds=synth.make(DATA["A"]))
+        cwd0 = os.getcwd()
         m0 = module_digest()
         if m0 != gold["A"]["module"]:
             viol.append(V("c14:history:module-state-at-start", "module-level state of this long-lived worker differs from a fresh interpreter's (an earlier history leaked)"))
@@ -230,6 +242,15 @@ def run_history(case):
                     r = CliRunner().invoke(fill_main, [os.path.join(d, "C", "elast.dat"), "-s", "cubic"])
                     if r.exit_code != 0:
                         viol.append(V("c14:history:raises:fillcli", f"step {n}: cij fill failed: {r.exception!r}"))
+                elif op[0] == "refused":
+                    # a calculation that FAILS earlier in the same process (a caller trying systems in a try/except loop)
+                    try:
+                        Calculator(os.path.join(d, "refused", "settings.yaml"))
+                        raise HarnessError("the orthorhombic table was accepted as cubic: the 'refused' operation is vacuous")
+                    except HarnessError:
+                        raise
+                    except (Exception, Warning):
+                        pass
                 elif op[0] == "cfg":
                     from cij.io.config import apply_default_config
                     cfg = apply_default_config({})
@@ -241,6 +262,10 @@ def run_history(case):
                 raise
             except Exception as ex:
                 viol.append(V(f"c14:history:raises:{op[0]}:{type(ex).__name__}", f"step {n} {op} after {case['ops'][:n]}: {K.fmt_exc(ex)}"))
+                break
+            if os.getcwd() != cwd0:
+                viol.append(V(f"c14:history:cwd-changed:{op[0]}", f"step {n} {op}: the process's working directory is now {os.getcwd()!r} (was {cwd0!r})"))
+                os.chdir(cwd0)
                 break
             if module_digest() != m0:
                 viol.append(V(f"c14:history:module-state-changed:{op[0]}", f"step {n} {op}: module-level state (writer rules / qha defaults / packaged defaults) changed"))
@@ -270,10 +295,10 @@ def valid_histories(alphabet, depth):
 
 def explore(ctx):
     ctx.rule = ("subprocess space: `cij run` under PYTHONHASHSEED in {0,1,2} (quick; full product for data set A, seed 1 for B and C) / "
-                "{0..15, random} (thorough) x 6 working-directory situations (incl. started elsewhere next to decoy inputs) x 3 data sets, outputs byte-compared with a golden run; history space: all valid operation sequences of "
-                "depth <=3 (quick) / <=4 (thorough) over {new A/B, read(x, p), write(x), fill, cfg, run-static, cij fill} on real objects in long-lived workers, "
+                "{0..15, random} (thorough) x 6 working-directory situations (incl. started elsewhere next to decoy inputs) x 3 data sets (+ interpreter started with -O, process locale C, a 20-column terminal), outputs byte-compared with a golden run; history space: all valid operation sequences of "
+                "depth <=3 (quick) / <=4 (thorough) over {new A/B, read(x, p), write(x), fill, cfg, run-static, cij fill, a construction refused by the symmetry check} on real objects in long-lived workers, "
                 "plus all 35 order-preserving interleavings of A:[new,read,read,write] with B:[new,read,write]; oracles: every write "
-                "byte-identical to the golden files, every read bit-identical to a fresh process and to itself when repeated, module-level "
+                "byte-identical to the golden files, every read bit-identical to a fresh process and to itself when repeated, working directory unchanged after every operation, module-level "
                 "state digests never change, fill(fill(x)) = fill(x); non-trivial = at least one comparison made")
     ctx.assumptions = ["goldens come from fresh interpreters with PYTHONHASHSEED=0 in a clean directory", "pint's internal conversion caches are not part of the state digest (keyed memoisation of immutable results)"]
     gold = {}
@@ -293,9 +318,11 @@ def explore(ctx):
     extras = ["none", "system-dir", "constraints-dir", "stale-outputs", "unrelated", "other-cwd-with-decoys"]
     cli = [{"data": dn, "seed": s, "extras": e, "golden": gold[dn]} for dn in DATA for s in seeds for e in extras
            if not ctx.quick or dn == "A" or s == "1"]
+    cli += [{"data": dn, "seed": "1", "extras": "none", "golden": gold[dn], "interp": it} for dn in (("A",) if ctx.quick else DATA)
+            for it in ("-O", "LC_ALL=C", "narrow-terminal")]
     ctx.run(MOD, "run_cli_case", cli, part="subprocess-cli", chunksize=1)
     reads = READS[:3] if ctx.quick else READS[:5]
-    alphabet = [["new", "A"], ["new", "B"]] + [["read", x, p] for x in "AB" for p in reads] + [["write", "A"], ["write", "B"], ["fill"], ["cfg"], ["static"], ["fillcli"]]
+    alphabet = [["new", "A"], ["new", "B"]] + [["read", x, p] for x in "AB" for p in reads] + [["write", "A"], ["write", "B"], ["fill"], ["cfg"], ["static"], ["fillcli"], ["refused"]]
     hist = valid_histories(alphabet, 3 if ctx.quick else 4)
     a_ops = [["new", "A"], ["read", "A", "pb_iso_c11"], ["read", "A", "pb_adi_c11"], ["write", "A"]]
     b_ops = [["new", "B"], ["read", "B", "pb_adi_c11"], ["write", "B"]]
